@@ -137,6 +137,11 @@ def _quantity_sites(scn):
             sites.append((op, 'dt', 'TimeInterval'))
             if op.get('T') is not None:
                 sites.append((op, 'T', 'TimeInterval'))
+        elif op['op'] == 'set_state':
+            if op.get('position') is not None:
+                sites.append((op, 'position', 'AngularPosition'))
+            if op.get('speed') is not None:
+                sites.append((op, 'speed', 'AngularSpeed'))
     for rule in scn.get('rules', []) or []:
         for key, kind in (('start', 'Time'), ('duration', 'TimeInterval'),
                           ('target', 'AngularPosition'), ('brake', 'Angle'),
